@@ -644,6 +644,29 @@ impl VisitMut for OptDesugar {
     /// statement form only (result unused): `R.get_or_insert_with(F);` -> `if R.is_none() { R = Some(F()); }`
     fn visit_block_mut(&mut self, b: &mut Block) {
         visit_mut::visit_block_mut(self, b);
+        // `for p in R.m()` where R is itself a call: `let __vx_for_recv = R; for p in __vx_for_recv.m()` (opt-in `for_receiver`):
+        // Verus' for-loop encoding cannot borrow from a temporary; the binding lives to the end of the enclosing block instead
+        if self.methods.contains("for_receiver") {
+            let old = std::mem::take(&mut b.stmts);
+            for mut st in old {
+                let mut pre: Option<Stmt> = None;
+                if let Stmt::Expr(Expr::ForLoop(f), _) = &mut st {
+                    if let Expr::MethodCall(m) = &mut *f.expr {
+                        if matches!(&*m.receiver, Expr::MethodCall(_) | Expr::Call(_)) {
+                            let id = Ident::new(&format!("__vx_for_recv_{}", line_of(m.method.span())), Span::call_site());
+                            let recv = m.receiver.clone();
+                            self.log.push(json!({"rule": "R6", "src_line": line_of(m.method.span()), "before": norm(&recv.to_token_stream()), "after": format!("receiver of the loop's iterator bound to `{id}` before the loop")}));
+                            pre = Some(parse_quote!(let #id = #recv;));
+                            m.receiver = Box::new(parse_quote!(#id));
+                        }
+                    }
+                }
+                if let Some(p) = pre {
+                    b.stmts.push(p);
+                }
+                b.stmts.push(st);
+            }
+        }
         if !self.methods.contains("get_or_insert_with") {
             return;
         }
